@@ -17,6 +17,7 @@ import OAP.Proofs.Stream
 import OAP.Proofs.StreamComplete
 import OAP.Proofs.Reading
 import OAP.Props.C02
+import OAP.Proofs.GenFuncsStream
 namespace OAP.C03
 open OAP OAP.Frame
 
@@ -580,5 +581,42 @@ example (cap : Nat) (chunks : List Bytes)
   exact tcp_reader_delivers_denoted .v1 gz0 0 _ _ h cap chunks (by rw [hc]; decide)
 
 end TcpReader
+
+/-! ### generated translation of the streaming header decoder (T2, function level)
+
+`Gen.Fn.v1_Header_Unpack` and `Gen.Fn.v2_Header_Unpack` are rewritten from go/v1/header.go and go/v2/v2_header.go by every run:
+the `buffer.Length()` guards, the `IsUnpacked` / `BeginUnpack` resumption flags, every `PeekUintN` / `Retrieve(n)` pair in the order of
+the source, the `Peek(3)` into two slices and the four-way `switch len(f)` with its index expressions (`panic` where Go would panic),
+over the ring-buffer model of OAP/Model/Ring.lean. Layers 2 and 3 above are about the hand-written `Header.unpackRing`
+(inside `unpackRing`); this says it is the same function. -/
+
+/-- `func (h *Header) Unpack(ctx, buffer *ringbuffer.RingBuffer) (done bool, err error)` of v1 and v2 as translated, for EVERY header
+state (fresh, byte 0 already parsed, already done — whatever the fields hold) and EVERY ring (any capacity, offsets, wrap position; no
+well-formedness needed): the same header fields afterwards (`BeginUnpack`, `IsUnpacked` included), the same ring afterwards, the same
+`done`, the same error — returned together with the state the call leaves behind — and a panic exactly where the model panics
+(`GenFuncs.hout` puts the model's outcome record into the shape of the generated result) -/
+theorem header_unpack_is_generated (h : Header) (rb : Ring) :
+    (Gen.Fn.v1_Header_Unpack (GenFuncs.v1G h) rb).map (fun p => (GenFuncs.v1B h.metadataLength p.1, p.2))
+      = GenFuncs.hout (Header.unpackRing .v1 h rb) ∧
+    (Gen.Fn.v2_Header_Unpack (GenFuncs.v2G h) rb).map (fun p => (GenFuncs.v2M p.1, p.2))
+      = GenFuncs.hout (Header.unpackRing .v2 h rb) :=
+  ⟨GenFuncs.v1_header_unpack_gen h rb, GenFuncs.v2_header_unpack_gen h rb⟩
+
+/-- the same read from the generated side: every value of the generated structs is covered -/
+theorem header_unpack_is_generated' (g1 : Gen.Fn.V1Header) (g2 : Gen.Fn.V2Header) (rb : Ring) :
+    (Gen.Fn.v1_Header_Unpack g1 rb).map (fun p => (GenFuncs.v1M p.1, p.2)) = GenFuncs.hout (Header.unpackRing .v1 (GenFuncs.v1M g1) rb) ∧
+    (Gen.Fn.v2_Header_Unpack g2 rb).map (fun p => (GenFuncs.v2M p.1, p.2)) = GenFuncs.hout (Header.unpackRing .v2 (GenFuncs.v2M g2) rb) :=
+  ⟨GenFuncs.v1_header_unpack_gen' g1 rb, GenFuncs.v2_header_unpack_gen' g2 rb⟩
+
+/-- non-vacuity: the translated v1 decoder on a ring whose push header wraps around the end of the buffer -/
+example :
+    (match Gen.Fn.v1_Header_Unpack {} { buf := [0x01, 0x02, 0x03, 0, 0, 0, 0x03, 0x07], size := 8, r := 6, w := 3, isEmpty := false } with
+     | .ok (g, rb', done, err) =>
+       g.type == 3 && g.cmdCode == 7 && g.bodyLength == 0x010203 && g.beginUnpack && g.isUnpacked && rb'.isEmpty && done && err.isNone
+     | _ => false) = true := GenFuncs.v1_unpack_wrapped_example
+
+/-- both streaming header decoders were inside the translatable subset in this run -/
+theorem functions_translated :
+    "v1.Header.Unpack" ∈ Gen.Fn.translated ∧ "v2.Header.Unpack" ∈ Gen.Fn.translated := by decide
 
 end OAP.C03
